@@ -384,7 +384,7 @@ def generate(rng, tier):
         gp = list(grown_prefix_cases())
         cases += rng.sample(gp, 200)
         cases += rng.sample([c for c in gp if c["warm_a"] and c["warm_b"][0][2]], 400)
-        n_rand = 1500
+        n_rand = 1300
     for _ in range(n_rand):
         c = random_case(rng, heavy=(tier == 'thorough' and rng.random() < 0.3))
         r = rng.random()               # how the comparison is handed to the two posets
